@@ -1,9 +1,10 @@
 """C15 - derived factors must be total, unambiguous functions of their window.
 
 E1 over the predicate space: EVERY table that maps each of the K = 4 regular window inputs of a two-level derived factor
-to a SUBSET of its levels (4^4 = 256 tables: total, partial and overlapping), with and without an ElseLevel, for five
-window geometries (WithinTrial[A,B]; Transition[A]; Window width 2 stride 2; Window width 2 with early start 0, where the
-predicate also sees None; Window width 2 with late start 2), and three roles of the derived factor (crossed; in the
+to a SUBSET of its levels (4^4 = 256 tables: total, partial and overlapping), with and without an ElseLevel, for eight
+window geometries (WithinTrial[A,B]; Transition[A]; Window width 2 stride 2 with default, early (0) and late (2) start; Window
+width 2 stride 1 with early start 0, where the predicate also sees None, and with late start 2; a window over TWO factors with
+early start), and three roles of the derived factor (crossed; in the
 design only = implied; in the design and used by a constraint).
 Oracle:  two levels accept the same input  =>  the block constructor raises ValueError;
          some input matches no level (no ElseLevel)  =>  every strategy returns [] (error reported), no exception;
@@ -17,12 +18,12 @@ from collections import Counter
 from vt import core, dsw, ref as R, build as B, gen
 
 PROP = 'C15'
-RULE = ('all 256 subset-valued tables over 4 window inputs x {no else, ElseLevel} x 5 geometries x 3 roles (quick: roles crossed+implied for '
+RULE = ('all 256 subset-valued tables over 4 window inputs x {no else, ElseLevel} x 8 geometries x 3 roles (quick: roles crossed+implied for '
         'every table, the constraint role for every 4th; thorough: everything, plus 3-level tables slice); states = sequences compared or '
         'refusals observed; non-trivial = the table is neither constant nor the parity/equality table used elsewhere.')
 ASSUMPTIONS = ['reference model vt/ref.py for the total, unambiguous tables']
 BUDGET_S = {'quick': 60, 'thorough': 300}
-GEOMS = ['within', 'transition', 'w2s2', 'early', 'late']
+GEOMS = ['within', 'transition', 'w2s2', 'early', 'late', 'w2s2e0', 'w2s2l', 'two_early']
 ROLES = ['crossed', 'implied', 'constrained']
 SUBSETS = [[], [0], [1], [0, 1]]
 
@@ -47,6 +48,18 @@ def geometry(g):
             extra = ['~|a0', '~|a1']
         elif g == 'late':
             d['start'] = 2
+        elif g == 'w2s2e0':        # stride 2 with an explicit early start: applies at trials 0, 2, ...
+            d['stride'] = 2; d['start'] = 0
+            extra = ['~|a0', '~|a1']
+        elif g == 'w2s2l':         # stride 2 with an explicit late start: applies at trials 2, 4, ...
+            d['stride'] = 2; d['start'] = 2
+        elif g == 'two_early':     # a window over TWO factors with an early start; the table reads B's window only
+            d['deps'] = ['A', 'B']; d['start'] = 0
+            keys = ['%s|%s|%s|%s' % (ap, ac, bp, bc) for ap in ('a0', 'a1') for ac in ('a0', 'a1') for bp in ('b0', 'b1') for bc in ('b0', 'b1')]
+            # every pattern with a missing previous value, including the mixed ones that cannot occur at run time but that the
+            # constructor's coverage check asks about (A8)
+            extra = ['%s|%s|%s|%s' % (ap, ac, bp, bc) for ap in ('~', 'a0', 'a1') for ac in ('a0', 'a1') for bp in ('~', 'b0', 'b1')
+                     for bc in ('b0', 'b1') if '~' in (ap, bp)]
     return A, Bf, d, keys, extra
 
 
@@ -58,13 +71,13 @@ def items(tier, seed):
             tables = list(itertools.product(range(4), repeat=4)) if not els else list(itertools.product(range(2), repeat=4))
             for ti, tb in enumerate(tables):
                 for role in ROLES:
-                    if g == 'w2s2' and role == 'crossed':
+                    if g in ('w2s2', 'w2s2e0', 'w2s2l') and role == 'crossed':
                         continue      # documented refusal: a factor with stride > 1 cannot be crossed
                     if tier == 'quick' and role == 'constrained' and (ti + seed) % 4:
                         continue
                     if tier == 'quick' and els and role == 'implied' and (ti + seed) % 2:
                         continue
-                    extras = [0] if g != 'early' else ([0, 1, 2] if (tier == 'thorough' or (ti + seed) % 8 == 0) else [0])
+                    extras = [0] if g not in ('early', 'w2s2e0', 'two_early') else ([0, 1, 2] if (tier == 'thorough' or (ti + seed) % 8 == 0) else [0, 1][:1 + (ti % 2)])
                     for ex in extras:
                         out.append({'g': g, 'else': els, 'table': list(tb), 'role': role, 'extra': ex, 'tier': tier})
     return out
@@ -73,7 +86,12 @@ def items(tier, seed):
 def make_spec(item):
     A, Bf, d, keys, extra = geometry(item['g'])
     table = {}
-    for k, s in zip(keys, item['table']):
+    if item['g'] == 'two_early':
+        proj = ['b0|b0', 'b0|b1', 'b1|b0', 'b1|b1']
+        pairs = [(k, item['table'][proj.index('|'.join(k.split('|')[2:]))]) for k in keys]
+    else:
+        pairs = list(zip(keys, item['table']))
+    for k, s in pairs:
         sub = SUBSETS[s]
         if item['else']:
             sub = [0] if s == 1 else []       # with an ElseLevel only level 0 has a predicate
@@ -170,9 +188,11 @@ def run_item(item):
             viols.append(core.viol('set_differs', dict(sig, gen=g, diff=kinds), spec=dsw.brief(spec), table=table, **dd))
         # the predicate must only ever be asked about keys that can occur: None exactly before trial 0
         asked_none = sorted(k for k in log if '~' in k)
-        if asked_none and item['g'] != 'early':
+        if asked_none and item['g'] not in ('early', 'w2s2e0', 'two_early'):
             viols.append(core.viol('predicate_handed_None', dict(sig, gen=g), spec=dsw.brief(spec), keys=asked_none))
-        bad_none = [k for k in asked_none if not k.startswith('~|') or k.count('~') != 1]
+        bad_none = [k for k in asked_none if k not in extra]
+        if item['g'] == 'two_early':
+            bad_none = []          # A8: mixed None patterns are asked at construction time
         if bad_none:
             viols.append(core.viol('predicate_handed_impossible_None_pattern', dict(sig, gen=g), spec=dsw.brief(spec), keys=bad_none))
     if viols:
